@@ -312,17 +312,27 @@ func (s *store) Write(path string, data io.Reader) (uri string, err error) {
 		var e error
 		uri, e = s.dir.Write(path, bytes.NewReader(b))
 		if e == nil && ck != nil {
+			// the job sends retained=[id] to every operator after a write unless it is its first one or the
+			// write is superseded (a newer checkpoint was written before it: overlapping publications)
 			s.g.mu.Lock()
 			s.g.pubs++
-			if s.g.pubs > 1 || s.loadedID() != 0 {
-				for _, n := range s.g.ops {
-					if !s.g.dead[n.label] {
-						s.g.expectRetain++
+			if s.g.maxPub == 0 {
+				s.g.maxPub = s.loadedID()
+			}
+			superseded := ck.Id < s.g.maxPub
+			if !superseded {
+				if s.g.maxPub != 0 {
+					for _, n := range s.g.ops {
+						if !s.g.dead[n.label] {
+							s.g.expectRetain++
+						}
 					}
 				}
+				s.g.maxPub = ck.Id
 			}
 			s.g.mu.Unlock()
 			o := Obs{Kind: "published", Gen: s.g.n, Ckpt: ck.Id, Cursors: c.Cursors, Text: uri}
+			o.Superseded = superseded
 			if len(ck.SourceCheckpoints) > 0 {
 				_, o.Dups, _ = DecodeSplitStates(ck.SourceCheckpoints[0].SplitStates)
 			}
